@@ -90,7 +90,7 @@ def run_check(pid, tier, seed, table, no_proofs=False):
     mon = None
     mon_budget = spec.get("mon_budget", 1500) * mult
     if spec.get("monitor"):
-        mon = monitors.MONITORS[pid](rng, mon_budget, tier)
+        mon = _run_monitor(pid, rng, mon_budget, tier)
         extra = table.extra_monitor(pid, rng, tier, seed)
         for f in extra:
             mon.failures.append(f)
@@ -100,7 +100,7 @@ def run_check(pid, tier, seed, table, no_proofs=False):
     searched = 0
     if (proof_broken or corr_bad) and not mon_fail and spec.get("monitor"):
         srng = random.Random("%s-%d-search" % (pid, seed))
-        m2 = monitors.MONITORS[pid](srng, mon_budget * 20, tier)
+        m2 = _run_monitor(pid, srng, mon_budget * 20, tier)
         searched = m2.evaluations
         mon_fail = list(m2.failures)
         if not mon_fail and corr_bad:
@@ -171,8 +171,9 @@ def run_check(pid, tier, seed, table, no_proofs=False):
     }
     ev = {"property_id": pid, "tier": tier, "seed": seed, "level": "proof", "coverage": cov,
           "assumptions": table.assumptions(pid), "wall_s": round(time.time() - t0, 2), "violations": nviol}
-    os.makedirs(os.path.join(VERIF, "evidence"), exist_ok=True)
-    with open(os.path.join(VERIF, "evidence", pid + ".json"), "w") as f:
+    evdir = os.environ.get("OSV_EVIDENCE_DIR") or os.path.join(VERIF, "evidence")
+    os.makedirs(evdir, exist_ok=True)
+    with open(os.path.join(evdir, pid + ".json"), "w") as f:
         json.dump(ev, f, indent=1, default=str)
     for ln in lines:
         print(ln)
@@ -180,6 +181,19 @@ def run_check(pid, tier, seed, table, no_proofs=False):
         pid, tier, cov["discharged"], cov["obligations"], corr_cases, len(corr_bad), stats.max_ulp,
         mon.evaluations if mon else 0, len(mon_fail), time.time() - t0))
     return 1 if nviol else 0
+
+
+def _run_monitor(pid, rng, budget, tier):
+    """run the property's monitor; an exception raised by the implementation on a call the monitor made on a
+    valid input is itself a failure of the property's predicate (there is no posterior / prediction to judge)"""
+    from . import api, monbase, monitors
+    try:
+        return monitors.MONITORS[pid](rng, budget, tier)
+    except api.ImplRaised as e:
+        mon = monbase.Mon(pid)
+        mon.case(e.case)
+        mon.fail("valid call raised", e.case, "%s: %s" % (type(e.exc).__name__, e.exc))
+        return mon
 
 
 def _strip(obs):
@@ -190,7 +204,9 @@ def _write_replay(pid, obj):
     from .monbase import jsonable
     body = json.dumps(jsonable(obj), indent=1, default=str)
     h = hashlib.sha1(body.encode()).hexdigest()[:10]
-    path = os.path.join(VERIF, "replays", "%s-%s.json" % (pid, h))
+    rdir = os.environ.get("OSV_REPLAY_DIR") or os.path.join(VERIF, "replays")
+    os.makedirs(rdir, exist_ok=True)
+    path = os.path.join(rdir, "%s-%s.json" % (pid, h))
     with open(path, "w") as f:
         f.write(body)
     return os.path.relpath(path, VERIF)
